@@ -250,7 +250,102 @@ class Send(Harness):
         vloop.run(main)
 
 
+class Cancelled(Harness):
+    """The caller of one send_packet is cancelled while its enqueue command is inside the link layer (frame written, not yet
+    acknowledged); the next request must still get the answer to ITS OWN enqueue command."""
+
+    name = "c12_cancelled"
+    must_reach = ("second-refused", "second-accepted")
+    functions = ("ControllerApplication.send_packet", "ProtocolHandler.command")
+
+    def run(self, ctx, versions=(4, 8, 14)):
+        import zigpy.device
+        import zigpy.types as zt
+
+        import bellows.types as t
+
+        V = versions[ctx.choice("version", len(versions))]
+        second = ("refuse", "ok")[ctx.choice("second_status", 2)]
+        cancel_at = (0.004, 0.012)[ctx.choice("cancel_at", 2)]
+
+        async def main(loop):
+            gw = Gw(loop)
+            gw.ack_latency = 0.008
+            ez = make_ezsp(V, gw)
+            ph = ez._protocol
+            app = appshim.make_app()
+            app._ezsp = ez
+            app.controller_event.set()
+            ez.add_callback(app.ezsp_callback_handler)
+            sends = []
+
+            def frame(name, values, seq, callback=False):
+                fid, _tx, rx = ph.COMMANDS[name]
+                return bytes(E.header(V, seq, fid, callback=callback) + E.enc_schema(rx, values))
+
+            def on_send(rec):
+                ts, data, task = rec
+                seq, _fc, fid, payload = E.parse_header(V, data)
+                name = ph.COMMANDS_BY_ID[fid][0]
+                if name != "sendUnicast":
+                    loop.call_later(RTT, ez.frame_received, frame(name, E.sample_schema(ph.COMMANDS[name][2], 0), seq))
+                    return
+                i = len(sends)
+                tx = ph.COMMANDS[name][1]
+                byname = dict(zip(tx, E.dec_schema(tx, payload)[0]))
+                tag = [v for k, v in byname.items() if "tag" in k.lower()][0]
+                dest = byname.get("indexOrDestination", byname.get("nwk"))
+                sends.append((seq, tag, dest))
+                st = "ok" if i == 0 else second
+                # the NCP answers the first (abandoned) request late, after the second one has been written
+                loop.call_later(0.05 if i == 0 else 0.02, ez.frame_received, frame(name, [status_value(V, st), 0x55], seq))
+                if i == 1 and second == "ok":
+                    rx = ph.COMMANDS["messageSentHandler"][2]
+                    aps = E.sample(t.EmberApsFrame, 1)
+                    bn = {"type": 0, "message_type": 0, "indexOrDestination": dest, "nwk": dest, "apsFrame": aps, "aps_frame": aps, "messageTag": tag,
+                          "message_tag": tag, "status": status_value(V, "ok"), "messageContents": b"", "message": b""}
+                    loop.call_later(0.1, ez.frame_received, frame("messageSentHandler", [bn[k] for k in rx], 0x77, callback=True))
+
+            gw.on_send = on_send
+
+            def packet(i):
+                return zt.ZigbeePacket(src=zt.AddrModeAddress(addr_mode=zt.AddrMode.NWK, address=0), src_ep=1,
+                                       dst=zt.AddrModeAddress(addr_mode=zt.AddrMode.NWK, address=0x1234 + i), dst_ep=1, tsn=0x30 + i,
+                                       profile_id=260, cluster_id=6, data=zt.SerializableBytes(bytes([1, 2, i])))
+
+            out = {}
+
+            async def caller(i):
+                try:
+                    await app.send_packet(packet(i))
+                    out[i] = "ok"
+                except asyncio.CancelledError:
+                    out[i] = "cancelled"
+                except Exception as e:
+                    out[i] = type(e).__name__
+
+            t0 = loop.create_task(caller(0))
+            loop.call_later(cancel_at, t0.cancel)
+            await asyncio.sleep(0.02)
+            t1 = loop.create_task(caller(1))
+            await asyncio.gather(t0, t1, return_exceptions=True)
+            ctx.check(len(sends) == 2, "%d enqueue commands reached the NCP" % len(sends), "enqueue-count")
+            ctx.check(sends[0][0] != sends[1][0], "two different requests carried the same EZSP sequence number %d" % sends[0][0], "sequence-reused")
+            if second == "refuse":
+                ctx.label("second-refused")
+                ctx.check(out.get(1) == "DeliveryError", "the NCP refused the second message, send_packet ended with %s (first caller cancelled at %.3f s)" % (out.get(1), cancel_at),
+                          "refusal-outcome-after-cancel")
+            else:
+                ctx.label("second-accepted")
+                ctx.check(out.get(1) == "ok", "second message accepted and confirmed, send_packet ended with %s" % out.get(1), "accepted-outcome-after-cancel")
+            ctx.check(len(app._pending) == 0, "bookkeeping left behind: %r" % (list(app._pending),), "pending-leak")
+            ctx.observe(V, second, cancel_at, out, sends)
+
+        vloop.run(main)
+
+
 SEND = Send()
+CANCELLED = Cancelled()
 
 
 def main(tier):
@@ -263,11 +358,13 @@ def main(tier):
     if tier == "quick":
         c.run("checks.c12:SEND", {"versions": [4, 5, 8, 9, 13, 14], "n": 1})
         c.run("checks.c12:SEND", {"versions": [4, 8, 14], "n": 2, "statuses": ["ok", "busy1", "refuse"], "confirms": ["ok", "none", "other-tag-then-ok"]})
+        c.run("checks.c12:CANCELLED", {})
         c.out_of_bounds += ["more than two concurrent packets", "versions other than 4, 5, 8, 9, 13, 14 (thorough: 4..14)", "reduced status / confirmation alphabets in the two-packet runs"]
     else:
         c.run("checks.c12:SEND", {"versions": list(range(4, 15)), "n": 1})
         c.run("checks.c12:SEND", {"versions": [4, 8, 9, 14], "n": 2, "statuses": ["ok", "busy1", "refuse"], "confirms": ["ok", "fail", "none", "other-tag-then-ok"]})
         c.run("checks.c12:SEND", {"versions": [8], "n": 3, "kinds": ["unicast", "unicast-route", "unicast-exttimeout"], "statuses": ["ok", "busy2"], "confirms": ["ok"]})
+        c.run("checks.c12:CANCELLED", {"versions": list(range(4, 15))})
         c.out_of_bounds += ["more than three concurrent packets"]
     return c.finish()
 
